@@ -349,6 +349,46 @@ def run(prog, run):
                               'encryption extension left in it goes on the wire next to the ciphertext' % t[:50])
     if not found:
         raise AnalysisBroken('C17.R3: QXmppMessage::toXml call not found in sendSensitive')
+    # with an encryption extension installed no message takes the plain path: sendSensitive evaluated for "extension set, stanza is a message"
+    from .. import cfgx
+    run.instance(r3)
+
+    def custom(f, nid, st):
+        n = f.nodes[nid]
+        if n['k'] == 'mem' and (n.get('f') or '').endswith('::encryptionExtension'):
+            return (True,)
+        if n['k'] == 'cast' and n.get('to') and f.id == ss.id:
+            inner = f.nodes[f.skip(n['e'])]
+            while inner['k'] == 'un' and inner.get('op') == '&':
+                inner = f.nodes[f.skip(inner['e'])]
+            if inner['k'] == 'var' and inner.get('vk') == 'param' and inner.get('pidx') == 0:
+                if n['to'].startswith('QXmppMessage'):
+                    return (True,)
+                if n['to'].startswith('QXmppIq'):
+                    return (False,)
+        return None
+    ev = cfgx.Evaluator(ss, {}, custom=custom)
+    plain = []
+    for i, n in ss.calls():
+        if ss.cname(n).split('::')[-1] in ('send', 'sendPacket', 'sendData') and n.get('args'):
+            a = ss.nodes[ss.skip(n['args'][0])]
+            if a['k'] == 'construct' and a.get('cls') == 'QXmppPacket' and a.get('args'):
+                a = ss.nodes[ss.skip(a['args'][0])]          # send(stanza): implicit QXmppPacket(stanza)
+            if a['k'] == 'var' and a.get('vk') == 'param' and a.get('pidx') == 0:
+                plain.append(i)
+    enc = [i for i, n in ss.calls() if ss.cname(n).endswith('::encryptMessage')]
+    if not plain or not enc:
+        raise AnalysisBroken('C17.R3: plain send / encryptMessage call not found in sendSensitive')
+    res = cfgx.sink_reachability(ss, lambda f, c, st: ev.ev(c, st), plain + enc)
+    if any(res[i] is not None for i in plain):
+        bad = [i for i in plain if res[i] is not None][0]
+        run.violation(r3, 'QXmppClient::sendSensitive#message-bypasses-encryption', ss.loc(bad),
+                      'although an encryption extension is installed there is a path on which a message given to sendSensitive is sent as it is (all of its content in plaintext) '
+                      'instead of being handed to encryptMessage', cfgx.describe_path(ss, res[bad]))
+    elif not any(res[i] is not None for i in enc):
+        run.violation(r3, 'QXmppClient::sendSensitive#never-encrypts', ss.loc(enc[0]), 'a message is never handed to encryptMessage')
+    else:
+        run.ok(r3, ss.loc(enc[0]), 'with an encryption extension every message given to sendSensitive goes through encryptMessage')
     mp = [f for f in prog.fns_named('QXmpp::Private::MessagePipeline::process') if len(f.params) == 4]
     if not mp:
         raise AnalysisBroken('C17.R3: MessagePipeline::process(client, extensions, e2eeExt, element) not found')
